@@ -412,7 +412,8 @@ theorem probe_know (w : World) (d : Str) (ans : List Ans) :
     (probe w d ans).know = w.know ∧ (probe w d ans).now = w.now := by
   unfold probe
   have s := lookupReal_know w d
-  rcases lookupReal w d with ⟨w1, known, real⟩
+  rcases hl : lookupReal w d with ⟨w1, known, real⟩
+  rw [hl] at s
   simp only [] at s ⊢
   split
   · exact s
@@ -450,7 +451,8 @@ theorem Holds.step {w : World} {bk : Str} {od : Int} (h : Holds w bk od) (e : Ev
       exact h.of_same rfl (Int.le_refl _)
   | probeDone d ans =>
     have := probe_know w d ans
-    exact h.of_same this.1 (by rw [this.2]; exact Int.le_refl _)
+    show Holds (probe w d ans) bk od
+    exact h.of_same (by rw [this.1]) (by rw [this.2]; exact Int.le_refl _)
 
 theorem Holds.run {w : World} {bk : Str} {od : Int} (h : Holds w bk od) (es : List Event)
     (hk : ∀ e ∈ es, keepsFamily bk e) : Holds (run w es) bk od := by
